@@ -186,8 +186,7 @@ func TestC01Rapid(t *testing.T) {
 			if rapid.IntRange(0, 24).Draw(rt, "roundtrip") == 0 {
 				// the chain is exported and restarted from its genesis in the middle of the history: every
 				// bridge keeps its own records (the claims below are judged by the same ledger as before)
-				w.e = importL1(w.e, w.e.K.ExportGenesis(w.e.Ctx))
-				w.logf("genesis export -> import")
+				w.restart(rt)
 				c.Class("genesis-round-trip-inside-history")
 				if err := c02Claimed(w, w.tupleMap()); err != nil {
 					rt.Fatalf("C01 violated at step %d: after a restart from the exported genesis the claim records of a bridge differ: %v\nhistory:\n%s", i, err, w.history())
